@@ -1,6 +1,6 @@
 from pel.datastream import DataStream
 from collections import OrderedDict
-from pel.peltool.parse_user_data import ParseUserData
+from pel.peltool.parse_user_data import ParseUserData, loadJSON
 from pel.peltool.comp_id import getDisplayCompID
 from pel.peltool.config import Config
 from pel.hexdump import hexdump
@@ -43,8 +43,8 @@ class ExtUserData:
         value = parser.parse(config)
 
         try:
-            j = json.loads(value)
-        except json.decoder.JSONDecodeError:
+            j = loadJSON(value)
+        except ValueError:
             # This should have been valid JSON but if it isn't
             # then hexdump it.
             mv = memoryview(value.encode('utf-8'))
